@@ -13,8 +13,3 @@ def ordinals_basics(g):
 
 
 SECTIONS = [ordinals_basics]
-
-
-def run(g):
-    for s in SECTIONS:
-        s(g)
